@@ -19,6 +19,7 @@ single sequence of the default seed.
 """
 import copy
 import itertools
+import sys
 
 import numpy as np
 
@@ -133,6 +134,15 @@ def execute_here(plan, keep_events=False):
                 continue
             rc = refmodel.RefCode(code)
             faces = z_rows(code)
+            if part['kind'] == 'other_object_deformed':
+                try:
+                    for nm_ in getattr(code, 'deformation_names', []):
+                        code.deform(nm_)
+                        _ = code.stabilizer_matrix, code.logicals_x
+                    sim.probe('other_object_of_same_lattice_deformed_first')
+                except Exception as e:
+                    sim.probe('deform_raised_' + type(e).__name__)
+                continue
             if part['kind'] == 'geometry':
                 run_geometry(part, sim, code, rc, faces, violate, stats)
             elif part['kind'] == 'interleaved':
@@ -186,6 +196,29 @@ def run_geometry(plan, sim, code, rc, faces, violate, stats):
             'first': bad[0]})
 
 
+class LineInterrupt:
+    """Ctrl-C at the j-th traced line inside panqec/decoders/* or
+    panqec/codes/* during one decode call."""
+
+    PREFIX = (seams.REPO + 'decoders' + '/', seams.REPO + 'codes' + '/')
+
+    def __init__(self, at):
+        self.at = at
+        self.n = 0
+
+    def _g(self, frame, event, arg):
+        if frame.f_code.co_filename.startswith(self.PREFIX):
+            return self._l
+        return None
+
+    def _l(self, frame, event, arg):
+        if event == 'line':
+            self.n += 1
+            if self.n == self.at:
+                raise _Interrupt()
+        return self._l
+
+
 class _Interrupt(KeyboardInterrupt):
     """Ctrl-C delivered between two sweeps (raised from the monitor)."""
 
@@ -200,7 +233,9 @@ def run_trajectories(plan, sim, code, rc, faces, violate, stats, states):
     ki = plan.get('ki') or {}          # error index (str) -> step
     dec = None
     for ei, err in enumerate(plan['errors']):
-        if dec is None or not reuse:
+        if dec is None or not reuse or (
+                plan.get('new_decoder_each_time') and ei > 0):
+            # (the code object is shared by all decodes of the plan)
             dec = make_decoder(plan['decoder'], code, plan.get('knobs'))
             drive_tiebreaks(dec, SchedRng(trng, sim))
             real = dec.sweep_move
@@ -234,9 +269,20 @@ def run_trajectories(plan, sim, code, rc, faces, violate, stats, states):
 
         dec.sweep_move = monitored
         interrupted = False
+        li = None
+        if (plan.get('ki_line') or {}).get(str(ei)) is not None:
+            li = LineInterrupt(plan['ki_line'][str(ei)])
         try:
-            out = dec.decode(syndrome)
+            if li is not None:
+                sys.settrace(li._g)
+            try:
+                out = dec.decode(syndrome)
+            finally:
+                if li is not None:
+                    sys.settrace(None)
         except _Interrupt:
+            if li is not None and li.n >= li.at:
+                sim.count_fault('ki:line_inside_decode')
             interrupted = True
             out = None
         except Exception as ex:
@@ -495,14 +541,23 @@ def trajectory_plans(tier, seed):
                     if rng.random() < 0.3:
                         errs[rng.randrange(k)] = 'I' * n
                     ki = {}
+                    ki_line = {}
                     for i in range(k - 1):
-                        if rng.random() < 0.45:
+                        r_ = rng.random()
+                        if r_ < 0.3:
                             ki[str(i)] = rng.randint(1, 4)
+                        elif r_ < 0.6:
+                            # anywhere inside decode, also in the code
+                            # class's helpers it calls
+                            ki_line[str(i)] = rng.choice(
+                                [rng.randint(1, 30), rng.randint(1, 300),
+                                 rng.randint(1, 3000)])
                     out.append({
                         'property': PROP, 'kind': 'trajectory',
                         'seed': H(seed, 'hist', len(out)), 'decoder': kind,
                         'code': cname, 'size': size, 'errors': errs,
-                        'reuse': True, 'ki': ki,
+                        'reuse': True, 'ki': ki, 'ki_line': ki_line,
+                        'new_decoder_each_time': rng.random() < 0.3,
                         'knobs': ({'max_rounds': 2} if kind == 'rotated'
                                   else None)})
                     out.append({
@@ -531,6 +586,12 @@ def session_plans(tier, seed):
         for size in sizes_for(kind, tier)[:4 if tier == 'quick' else None]:
             for order in (codes, codes[::-1]):
                 parts = []
+                # another object of the same class and size is Clifford-
+                # deformed and used first (a deformed-vs-undeformed study)
+                for cname in order:
+                    parts.append({'kind': 'other_object_deformed',
+                                  'decoder': kind, 'code': cname,
+                                  'size': size})
                 for cname in order:
                     parts.append({'kind': 'geometry', 'decoder': kind,
                                   'code': cname, 'size': size})
